@@ -5,6 +5,7 @@ pub mod c04;
 pub mod c05;
 pub mod c06;
 pub mod c07;
+pub mod c08;
 pub mod c09;
 pub mod c10;
 pub mod c11;
@@ -24,6 +25,7 @@ pub fn dispatch(prop: &str, rc: &mut RunCtx) -> bool {
         "C05" => c05::run(rc),
         "C06" => c06::run(rc),
         "C07" => c07::run(rc),
+        "C08" => c08::run(rc),
         "C09" => c09::run(rc),
         "C10" => c10::run(rc),
         "C11" => c11::run(rc),
